@@ -111,7 +111,7 @@ impl Stdfs {
     pub fn all_dirs<T: AsRef<Path>>(path: T) -> RvResult<Vec<PathBuf>> {
         let mut paths: Vec<PathBuf> = vec![];
         let src = StdfsEntry::from(path)?;
-        if !src.is_dir() {
+        if !src.is_dir() || src.is_symlink() {
             return Err(PathError::is_not_dir(src.path_buf()).into());
         }
         for entry in Stdfs::entries(src.path())?.min_depth(1).sort_by_name().dirs() {
@@ -147,7 +147,7 @@ impl Stdfs {
     pub fn all_files<T: AsRef<Path>>(path: T) -> RvResult<Vec<PathBuf>> {
         let mut paths: Vec<PathBuf> = vec![];
         let src = StdfsEntry::from(path)?;
-        if !src.is_dir() {
+        if !src.is_dir() || src.is_symlink() {
             return Err(PathError::is_not_dir(src.path_buf()).into());
         }
         for entry in Stdfs::entries(src.path())?.min_depth(1).sort_by_name().files() {
@@ -185,7 +185,7 @@ impl Stdfs {
     pub fn all_paths<T: AsRef<Path>>(path: T) -> RvResult<Vec<PathBuf>> {
         let mut paths: Vec<PathBuf> = vec![];
         let src = StdfsEntry::from(path)?;
-        if !src.is_dir() {
+        if !src.is_dir() || src.is_symlink() {
             return Err(PathError::is_not_dir(src.path_buf()).into());
         }
         for entry in Stdfs::entries(src.path())?.min_depth(1).sort_by_name() {
